@@ -24,6 +24,22 @@ P = {
          "All conversions (from_slice, TryFrom, interpret, from_str, from_hash, to_slice, to_big_endian, set_bit) on complete small scopes and boundary patterns at every length, compared with integer arithmetic (int(bytes) mod p, (int mod (r-1))+1, decimal value mod p).",
          "from_str(\"\") and setting bit indices >= 256 deliberately unconstrained. Trusted: rustc, num-bigint.",
          "DESIGN.md 5 (C13)"),
+ "C01": (True, GRID + "; K x K x representatives^2 x three entry points, additivity triples, every identity representative",
+         "bytes(e(aP1,bP2)) == bytes(g^(ab)) for every (a,b) of the scalar alphabet (0, 1, 2, r-1, lambda, long runs, ...) in three representations per side through pairing, fast_pairing and G2Prepared::pairing; e(P1,P2)^(ab) == e(aP1,bP2), g^(r-1)*g == 1, additivity in both arguments with library-computed sums of mixed representatives, every identity representative (including P - P and new(x,y,0)) against every value, non-degeneracy.",
+         "Decided through discrete logs (every group element is a multiple of the generator); g is pinned by the published vectors. Enumerated alphabet only.",
+         "DESIGN.md 5 (C01)"),
+ "C02": (True, GRID + "; K2 x K2 direct textbook pairings, published vectors",
+         "For every (a,b) the reference model computes a*P1, b*P2 and the R-ate pairing by the textbook algorithm (no discrete-log shortcut, nothing from the library enters the oracle); the library's 384 bytes must be identical for three representatives per side and all three entry points; the standard's three published values are reproduced through every entry point.",
+         "Enumerated scalar alphabet only. The textbook implementation is bound to the standard by its published vectors.",
+         "DESIGN.md 5 (C02), Appendix A"),
+ "C03": (True, GRID + "; all concrete values^2 x three entry points; all call sequences on a prepared value up to a depth",
+         "All representatives (8 non-identity kinds, 8 identity kinds) of every discrete log on both sides through all three entry points give byte-identical results equal to the model value; every sequence of pairing(&P_i) calls (with optional clone) up to the depth bound on one prepared value returns the model value at every step and leaves the prepared value's Debug rendering unchanged.",
+         "Enumerated alphabet, bounded call depth.",
+         "DESIGN.md 5 (C03)"),
+ "C11": (True, GRID + "; Gamma^2 products and equalities, exponent-law quadruples, every small exponent",
+         "Gt elements g^k built five different ways; every ordered pair for * (against the product in F_q[w]/(w^12+2) on the decoded bytes and against g^(k+k')), commutativity, == iff encodings equal iff exponents equal, unit/inverse/g^0/g^1/order on every element, exponent laws, EVERY exponent below the bound, every 32-byte limb < q.",
+         "Enumerated alphabet only.",
+         "DESIGN.md 5 (C11)"),
  "C04": (True, GRID + "; all ordered pairs of concrete point values (discrete log x Jacobian representative), all triples of a small set",
          "Every ordered pair over (D x {Aff, LibMul, LibSub, Scaled(2), Scaled(-1), Scaled(generic), ScaledX1, ScaledY1}) + 8 identity representatives for A+B, B+A, A-B, (A-B)+B, unary laws on every value, boundary field values pushed through the adder as Jacobian scalings, all triples of a small set; abstraction (x/z^2, y/z^3) compared with textbook affine chord-and-tangent on reference points; adder arm x relation histogram with every class required.",
          "Enumerated alphabet only. Trusted: rustc, num-bigint, reference model.",
